@@ -100,7 +100,7 @@ struct Batch {
 
 fn batches(tier_quick: bool, seed: u64) -> Vec<Batch> {
     let mut rng = SplitMix64::new(seed).fork(0xC14);
-    let n_random = if tier_quick { 1_000 } else { 10_000 };
+    let n_random = if tier_quick { 3_000 } else { 10_000 };
     let mut out = Vec::new();
     for op in OPS {
         for &(a, b) in &DOMAINS {
